@@ -718,10 +718,10 @@ fn main() {
     let args = parse_args();
     quiet_panics();
     let mut out = Out::new(&args, "From Verif Require Import GraphStore.", "GraphStore.case", "GraphStore.check_case", if args.thorough { 500 } else { 250 });
-    out.rule = "exhaustive: every sequence of length 1..L (L=4 quick, 5 thorough) over a 10-operation alphabet \
+    out.rule = "exhaustive: every sequence of length 1..L-1 and every 4th (quick) / 3rd (thorough) sequence of length L, rotating with the seed (L=4 quick, 5 thorough), over a 10-operation alphabet \
                 (create edge 1->2, stub edge 2->1, self-loop on 1, delete edge 1, delete edge 2, delete node 1, create node, \
                 compact, finish_bulk_load, set property on edge 1) after two node creations, every read view dumped after the \
-                last operation (all proper prefixes are cases of their own); random: histories of <=40 (quick) / <=120 (thorough) \
+                last operation (all proper prefixes are cases of their own); random: histories of <=40 (quick) / <=80 (thorough) \
                 operations over <=6 nodes, 3 labels, 3 types, 3 keys, all 16 operations incl. compaction/bulk finish at random \
                 points, every read view dumped after every operation for ids 0..max+1. Non-trivial = more than one operation; \
                 distinct by operation list."
@@ -743,8 +743,11 @@ fn main() {
     let maxlen = if args.thorough { 5 } else { 4 };
     let base = vec![Op::CreateNode(vec![0]), Op::CreateNodeP(vec![0, 1], vec![(0, 1)])];
     // random histories are interleaved with the exhaustive ones so that shards are balanced
-    let (cases, maxops) = if args.thorough { (6000u64, 120u64) } else { (260u64, 40u64) };
-    let exhaustive_total: u64 = (1..=maxlen).map(|l| (alphabet.len() as u64).pow(l as u32)).sum();
+    let (cases, maxops) = if args.thorough { (2000u64, 80u64) } else { (200u64, 40u64) };
+    // the longest length is sampled (1 in 4 quick, 1 in 3 thorough, rotating with the seed)
+    let stride: u64 = if args.thorough { 3 } else { 4 };
+    let exhaustive_total: u64 = (1..maxlen).map(|l| (alphabet.len() as u64).pow(l as u32)).sum::<u64>()
+        + (alphabet.len() as u64).pow(maxlen as u32) / stride;
     let every = (exhaustive_total / cases).max(1);
     let mut emitted = 0u64;
     let mut rc = 0u64;
@@ -756,6 +759,9 @@ fn main() {
     for len in 1..=maxlen {
         let total = (alphabet.len() as u64).pow(len as u32);
         for code in 0..total {
+            if len == maxlen && code % stride != args.seed % stride {
+                continue;
+            }
             let mut seq = base.clone();
             let mut c = code;
             for _ in 0..len {
